@@ -209,6 +209,7 @@ Reap(a, h) == IF a[h].id # 0 /\ ~LiveE(a[h]) THEN [a EXCEPT ![h] = NoneE] ELSE a
 
 Start(r, q, route) ==
   /\ req[r].st = "idle"
+  /\ \A o \in Reqs : o < r => req[o].st # "idle"             \* slots are interchangeable: take the lowest
   /\ \A o \in Reqs : req[o].st = "idle" \/ req[o].q # q      \* dedup: one leader per key
   /\ LET rq0 == [IdleReq EXCEPT !.q = q, !.route = route, !.k = 1,
                                 !.metas = <<NoCut>>, !.pend = <<NoPend>>]
@@ -397,6 +398,27 @@ NextA ==
   \/ \E q \in Keys : PrefetchStart(q)
   \/ \E q \in Keys \cup {"cut", "proof"} : Purge(q)
   \/ \E d \in Ticks : TickA(d)
+
+(* Next-state relation for -simulate: TLC picks uniformly among successor    *)
+(* states, so the parameter product of the write actions would drown the     *)
+(* reads; every write parameter is drawn once per step instead               *)
+One(S) == {RandomElement(S)}
+NextASim ==
+  \/ \E r \in Reqs, q \in Keys, rt \in Routes : HitMsg(r, q, rt) \/ Chase(r, q, rt)
+  \/ \E r \in Reqs, q \in Keys : HitWire(r, q) \/ GetEntry(r, q)
+  \/ \E r \in Reqs : HitScoped(r) \/ NoAnswer(r)
+  \/ \E r \in Reqs, d \in One(Deltas) : Lease(r, d)
+  \/ \E r \in Reqs, raw \in One(RawTTLs), aux \in One(AuxSet) : CacheWrite(r, raw, aux)
+  \/ \E r \in Reqs, raw \in One(RawTTLs), aux \in One(AuxSet) : CacheWrite(r, raw, aux)
+  \/ \E q \in Keys, raw \in One(RawTTLs), aux \in One(AuxSet), d \in One(Deltas \cup {NoAux}) :
+        SubQueryWrite(q, raw, aux, d) \/ PrefetchComplete(q, raw, aux, d)
+  \/ \E raw \in One(RawTTLs), aux \in One(AuxSet), d \in One(Deltas \cup {NoAux}) : CutWrite(raw, aux, d)
+  \/ \E rs1 \in One(RawTTLs), rn \in One(RawTTLs), d \in One(Deltas \cup {NoAux}) : ProofWrite(rs1, rn, d)
+  \/ \E rt \in Routes \cup {"get"} : HitCut(rt) \/ HitDenial(rt)
+  \/ \E q \in Keys : PrefetchStart(q)
+  \/ \E q \in One(Keys \cup {"cut", "proof"}) : Purge(q)
+  \/ \E d \in Ticks : TickA(d)
+  \/ \E d \in One(Ticks) : TickA(d)
 
 (* ------------------------------ properties ------------------------------ *)
 TypeOKA ==
@@ -642,6 +664,17 @@ NextD ==
   \/ \E r \in Res, how \in {"until", "dur"} : InsertDeleg(r, how)
   \/ \E r \in Res, t \in RawTTLs : AnswerFromLeaf(r, t)
   \/ \E z \in Zones : ServeAnswer(z)
+  \/ \E d \in Ticks : TickD(d)
+
+NextDSim ==
+  \/ \E e \in One(Zones) : ParentWithdraw(e) \/ ParentRepoint(e)
+  \/ \E e \in One(Zones), ns \in One(DTTLs), ds \in One(DTTLs \cup {NoDS}) : ParentRetime(e, ns, ds)
+  \/ \E r \in Res, z \in Zones : SeedFromDelegCache(r, z)
+  \/ \E r \in Res : AskZone(r) \/ DescendCached(r) \/ ProvisionalInsert(r)
+  \/ \E r \in Res : AskZone(r) \/ SelfReferral(r)
+  \/ \E r \in Res, how \in {"until", "dur"} : InsertDeleg(r, how)
+  \/ \E r \in Res, t \in One(RawTTLs) : AnswerFromLeaf(r, t)
+  \/ \E z \in One(Zones) : ServeAnswer(z)
   \/ \E d \in Ticks : TickD(d)
 
 (* ------------------------------ properties ------------------------------ *)
